@@ -71,6 +71,10 @@ theorem exit_code_discipline :
     ∧ Gen.preDispatchExits.all (fun e => e.2.1 == n!"130" || e.2.2.2) = true
     ∧ Gen.initHelperStdoutSites.all (fun e => e.2 == 0) = true := by decide +kernel
 
+theorem no_child_inherits_stdout :
+    (Gen.childProcessSites.all fun c => c.2.2.2.1 == n!"output" || c.2.2.2.2) = true
+    ∧ Gen.unpairedErrorDocCalls = [] := by decide +kernel
+
 theorem core_sites_as_modelled :
     (Gen.coreStdoutSites.all fun s => knownCoreSites.contains s) = true
     ∧ (Gen.coreStdoutSites.any fun s => s.2.1 == n!"get_user_confirmation") = false := by decide +kernel
